@@ -15,10 +15,6 @@ theorem atoi_digits (cs : List Char) (n : Nat) (h : atoiNat cs = some n)
   · simp at h2
   · rw [h]; rfl
 
-theorem dig_ne_sign (n : Nat) : dig n ≠ '-' ∧ dig n ≠ '+' := by
-  have := dig_toNat n
-  constructor <;> intro e <;> rw [e] at this <;> revert this <;> simp <;> omega
-
 theorem head_render2 (n : Nat) : (render2 n).head? ≠ some '-' ∧ (render2 n).head? ≠ some '+' := by
   have := dig_ne_sign (n / 10)
   simp only [render2, List.head?_cons, ne_eq, Option.some.injEq]
